@@ -88,6 +88,13 @@ def cases(draw, tier):
         else:
             tree = getattr(g, "k_" + root)(n, n, depth - 1)
     k = g.pick([0, 0, None]) if g.boolean() else g.integer(-(n - 1), n - 1)
+    if not big and g.integer(1, 10) == 1:
+        # block diagonal with a small block (possibly repeated) before a larger one, and an offset between the two sizes:
+        # a structural rule has to place the zeros between the blocks correctly - or refuse
+        a, b = g.integer(1, 2), g.integer(3, 5)
+        tree = {"k": "bd", "ch": [g.k_dense(a, a), g.k_dense(b, b)], "mult": [g.integer(1, 2), 1]}
+        n = IR.denote(tree).shape[0]
+        k = g.integer(a, b - 1) * g.pick([1, -1])
     alg = g.pick(["omitted", "Auto", "Exact", "Exact(bs)", "Exact(pbar)"])
     return {"tree": tree, "k": k, "alg": alg, "bs": g.pick([1, 7, 50, 100, 1000])}
 
